@@ -1044,16 +1044,27 @@ class MutableFileVersion:
         new_size = data.get_size() + offset
         old_size = self.get_size()
         segment_size = self._version[3]
-        num_old_segments = mathutil.div_ceil(old_size,
-                                             segment_size)
-        num_new_segments = mathutil.div_ceil(new_size,
-                                             segment_size)
-        log.msg("got %d old segments, %d new segments" % \
-                        (num_old_segments, num_new_segments))
+        if segment_size:
+            # (an empty SDMF file has a segment size of zero)
+            num_old_segments = mathutil.div_ceil(old_size,
+                                                 segment_size)
+            num_new_segments = mathutil.div_ceil(new_size,
+                                                 segment_size)
+            log.msg("got %d old segments, %d new segments" % \
+                            (num_old_segments, num_new_segments))
 
         # We do a whole file re-encode if the file is an SDMF file.
         if self._version[2]: # version[2] == SDMF salt, which MDMF lacks
             log.msg("doing re-encode instead of in-place update")
+            return self._do_modify_update(data, offset)
+
+        # We also re-encode when the new data starts exactly where the last
+        # full segment ends (which includes appending to an empty file):
+        # the in-place path fetches the existing segment that contains
+        # 'offset' in order to splice the new data into it, and there is no
+        # such segment.
+        if offset == old_size and old_size % segment_size == 0:
+            log.msg("appending at a segment boundary: doing re-encode")
             return self._do_modify_update(data, offset)
 
         # Otherwise, we can replace just the parts that are changing.
